@@ -192,6 +192,9 @@ def run_history(sc: dict) -> dict:
                 rec['exc'] = type(ex).__name__
             rec['t1'] = T()
             rec['notdone'] = unfinished()
+            rec['qsize'] = bus.event_queue.qsize() if bus.event_queue is not None else 0
+            if timeout is None and rec['qsize'] and 'exc' not in rec:
+                viol.append(('C15.a', f'wait_until_idle() returned at t={T():g} while {rec["qsize"]} event(s) were still queued on the bus'))
             if timeout is None and rec['notdone']:
                 viol.append(('C15.a', f'wait_until_idle() returned at t={T():g} while events {rec["notdone"][:8]} accepted earlier were still {[state[t] for t in rec["notdone"][:8]]}'))
 
@@ -215,6 +218,16 @@ def run_history(sc: dict) -> dict:
                     y = Y(tag=tag, event_created_at=base + datetime.timedelta(milliseconds=tag + 1), event_timeout=None)
                     events[tag] = y
                     disp(y, None)
+            elif k == 'again':
+                # the same, already completed event object is dispatched to the bus again (its handlers will not re-run,
+                # but the bus has to take it off its queue before it is idle)
+                done_ = [e for t, e in sorted(accepted.items()) if isinstance(e, X) and state.get(t) == 'done' and e.event_status == 'completed']
+                for e in done_[: op[1]]:
+                    info['redispatched-completed'] += 1
+                    try:
+                        bus.dispatch(e)
+                    except Exception:  # noqa
+                        pass
             elif k == 'retry':
                 # the caller kept the event objects whose dispatch was rejected and dispatches the same objects again
                 again = [(e, by) for (e, by, _x) in rejected if by is None and e.tag not in accepted][: op[1]]
